@@ -22,6 +22,11 @@ CHECKS = {
          "Trusted: the graph model and the reference path resolver in harness/src/props/c09.rs; the import relation scanned from the generated source texts. Early supply of not-yet-requested modules is outside the generated domain (provide_module documents only pending imports); VERIF_C09_EARLY=1 adds it for probing.",
          "property-based random generation (proptest choice tape) against a reference model + metamorphic comparison across host schedules",
          "§10 C09"),
+ "C20": ("exploration",
+         "Programs are emitted token by token through a layout engine that records every token's (line, column) extent; a run-time or syntactic fault is planted at a marked token range under a call chain of depth 0..6 (quick) / 0..12 (thorough) over 16 kinds of call links, 1..3 modules and 16 embeddings, and the text between any two tokens (newlines, indentation, comments, CRLF, BOM, wide characters) is chosen by the tape. Every reported position must lie on a token of the faulting expression / the call expression of its frame, the trace must list exactly the active calls innermost first with the generator's names and files, a SyntaxError must point into the offending token, and the printed report must agree with the structured one. An enumerated grid (link kind x fault x embedding, caller x callee, syntactic fault x wrapper / context) runs on every seed.",
+         "Trusted: the 15-line position bookkeeping of the layout engine (Pen::put) and the by-construction choice of the offending token. Errors that carry no location or an empty stack (user throw, errors passing through try/finally, ThrownValue from module evaluation) are counted as unjudged. User code entered from natives (callbacks, getters, call/apply) is excluded by gate C20-native-callback-frames while that finding is open. Lone CR, U+2028/2029 line ends and nested '/*' inside block comments are outside the generated domain.",
+         "property-based random generation (proptest choice tape) with a closed-form oracle computed by the generator + enumerated grid",
+         "§10 C20"),
 }
 
 NOT_YET = {}
